@@ -59,6 +59,13 @@ def parseOp (ws : List String) : Option (Op × Bool) :=
       | _, _ => none
   | [] => none
 
+/-- the values a successful transferShares / transferFromShares returns: token worth of the moved shares at the
+validator's exchange rate (`TokensFromShares(shares).TruncateInt()`) and the reward coins paid to the recipient -/
+def retOf (st s' : State) : Op → String
+  | .transfer _ t v x | .transferFrom _ _ t v x =>
+    s!" ret={(st.vs v).tokensFromShares (x * ONE) / ONE}:{s'.gain t - st.gain t}"
+  | _ => ""
+
 def step (st : State) (line : String) : State × String :=
   match words line with
   | "reset" :: n :: h :: vals =>
@@ -71,7 +78,7 @@ def step (st : State) (line : String) : State × String :=
     | none => (st, "bad-op")
     | some (op, tl) =>
       match st.exec FxVerif.Gen.C11.cfg op with
-      | .ok s' => (s', "ok | " ++ showState s')
+      | .ok s' => (s', "ok | " ++ showState s' ++ retOf st s' op)
       | .error e => (st, errName tl e ++ " | " ++ showState st)
 
 def main : IO Unit := runDriver step ({} : State)
